@@ -63,7 +63,7 @@ CHECKS = {
         level="model_checking",
         text="CallHistory.tla models pooled scratch contexts whose fields carry the id of the call that last wrote them (take / reset / "
              "use / release, panicking calls leak their context); TLC checks NoStaleRead and ResultsStable on all histories of abstract "
-             "kinds and finds the stale read when a field is dropped from the reset set. Instantiated with the harness's 64 concrete call "
+             "kinds and finds the stale read when a field is dropped from the reset set. Instantiated with the harness's ~65 concrete call "
              "kinds (every entry point x option set, 17 failing kinds, persistent Encoder / Decoder / Path / FieldQuery handles) it "
              "enumerates all histories of length <= 2 and simulates long ones (60 / 300 calls); each history runs in one process (GC "
              "off, GOMAXPROCS=1, so the pool hands back the context just released) and every call's result is compared with the same "
@@ -156,6 +156,18 @@ CHECKS = {
              "reporting, 60 s stall detector. Indent on nestings deeper than 10^5 is skipped (quadratic time by design, as in encoding/json).",
         technique="TLA+-specified input space (JsonText) enumerated into all decoding/utility entry points under crash isolation",
         engine="JsonText", design="8/C06"),
+    "C07": dict(
+        level="exploration",
+        text="MemLayout.tla models the destination as fields between guard regions in a byte map and the stores the decoder's design "
+             "performs (field-sized stores; array elements followed by an element-sized reset of the tail); TLC checks that writes stay "
+             "inside the fields the document names for every layout of up to 2 fields of 18 kinds (element sizes 1..64) x 6 document "
+             "actions, and FINDS the overwritten neighbour under the deviation PointerSizedZeroFill (the code before it was repaired). "
+             "Every (layout, document) pair is realised with reflect.StructOf (3 Go types per kind), canary-filled and decoded with "
+             "Unmarshal, Decoder and a truncated document: guards and un-named fields must be byte-identical, named fields equal "
+             "encoding/json's, all headers walkable; a sample runs again in a -d=checkptr build and the GC sweeps all results.",
+        note="exploration: memory safety is observed (canaries, walk, GC, checkptr), not proved; encoding/json defines the result inside the addressed set.",
+        technique="TLA+ byte-map model of decoder stores (with a named deviation) checked by TLC; TLC-emitted layouts realised with canaries, checkptr build and GC sweeps",
+        engine="MemLayout", design="8/C07"),
     "C09": dict(
         level="model_checking",
         text="StreamDecoder.tla models the refillable window (read with optional doubling, consume, in-place unescape, reset) over "
@@ -240,6 +252,8 @@ NA = {}
 HOOK_COMMITS = ["cb16685"]
 FIX_COMMITS = ["3ba2124", "35e540e", "5d9c0a9", "182cdbb", "c177d40", "4cc9b5c", "e04537c", "f4cd737", "4b54f48", "54b79dc"]
 ENGINES = [
+    dict(name="MemLayout", path="specs/MemLayout.tla", serves_properties=["C07"],
+         kind_free_text="TLA+ byte-map model of destination layouts and decoder stores; exhaustive layout x document enumeration and export"),
     dict(name="CallHistory", path="specs/CallHistory.tla", serves_properties=["C11", "C12"],
          kind_free_text="TLA+ model of pooled contexts with per-field last-writer tags and result ownership; exhaustive and simulated history generation"),
     dict(name="FieldQuery", path="specs/FieldQuery.tla", serves_properties=["C19"],
